@@ -146,7 +146,7 @@ func init() {
 			depth = 4
 		}
 		var mu sync.Mutex
-		var failedSingles, batchChecks, partialBatches, txnVariants int64
+		var failedSingles, batchChecks, partialBatches, txnVariants, storeFaults int64
 		kinds := map[string]bool{}
 		cfg := e1.Config{ReplayNames: c.ReplayCalls(), Alphabet: calls, Depth: depth, Stop: r.TooMany,
 			Before: func(w *world.World, path []int) interface{} { return w.DumpAll() },
@@ -196,6 +196,30 @@ func init() {
 					if after != before {
 						r.Violation("failed-write-changed-state:"+callKind(last)+":"+obs, fmt.Sprintf("%s returned %s but the database changed.\nbefore:\n%s\nafter:\n%s\nhistory: %s", last, obs, before, after, hist), rep)
 					}
+				}
+				// a call that succeeds here, repeated on a store that rejects the commit: the call must report the error and
+				// nothing may differ afterwards (the error is hit after the whole write has been prepared)
+				if _, isBatch := batches[last]; !isBatch && strings.HasPrefix(obs, "ok") {
+					ws := world.New()
+					for _, ci := range path[:len(path)-1] {
+						calls[ci].Do(ws)
+					}
+					b0 := ws.DumpAll()
+					ws.Store.FailNext = 1
+					o2 := calls[path[len(path)-1]].Do(ws)
+					struck := ws.Store.FailNext == 0
+					ws.Store.FailNext = 0
+					if struck {
+						mu.Lock()
+						storeFaults++
+						mu.Unlock()
+						if strings.HasPrefix(o2, "ok") {
+							r.Violation("store-failure-not-reported:"+callKind(last), fmt.Sprintf("%s returned %q although the store rejected its commit; history: %s", last, o2, hist), rep)
+						} else if a0 := ws.DumpAll(); a0 != b0 {
+							r.Violation("failed-commit-changed-state:"+callKind(last), fmt.Sprintf("%s failed in the store (%s) but the visible database changed:\n%s\nhistory: %s", last, o2, firstDiff(b0, a0), hist), rep)
+						}
+					}
+					ws.Close()
 				}
 				// the same failing write as the second statement of a session transaction: whatever the transaction
 				// commits must be exactly its first statement (or nothing, if the commit is refused)
@@ -282,6 +306,7 @@ func init() {
 		r.Set("failing_single_writes_checked", failedSingles)
 		r.Set("distinct_failure_kinds", int64(len(kinds)))
 		r.Set("failing_statements_inside_transactions", txnVariants)
+		r.Set("successful_calls_repeated_on_a_failing_store", storeFaults)
 		r.Set("batches_checked", batchChecks)
 		r.Set("batches_with_failing_items", partialBatches)
 		r.Set("alphabet", e1.Names(calls, seq(len(calls))))
